@@ -1,6 +1,7 @@
 import TrVerif.Model.Block
 import TrVerif.Model.Osrm
 import TrVerif.Model.LoadDriver
+import TrVerif.Model.ParamsDriver
 open Tr
 
 partial def loop (h : IO.FS.Stream) (st : DState) : IO Unit := do
@@ -33,6 +34,9 @@ def c20Classes : List String :=
 def main (args : List String) : IO Unit := do
   match args with
   | ["--c20-classes"] => for l in c20Classes do IO.println l
+  | ["--classify", f] => do
+    let txt ← IO.FS.readFile f
+    for l in Par.classifyAll (txt.splitOn "\n") do IO.println l
   | ["--encode", f] => do
     let txt ← IO.FS.readFile f
     let st := (txt.splitOn "\n").foldl (fun (st : DState) l => match words l with
